@@ -703,7 +703,7 @@ package ion
 //@ split returns
 //@ requires sstWF(s)
 //@ modifies nothing
-//@ ensures[C09,C10] result != nil && vcIsSST(result) && vcAsSST(result).maxID == maxID
+//@ ensures[C05,C09,C10] result != nil && vcIsSST(result) && vcAsSST(result).maxID == maxID
 //@ ensures[C09,C10] vcAsSST(result).version == s.version && vcAsSST(result).name == s.name
 //@ ensures[C09] maxID == s.maxID ==> vcAsSST(result) == s
 //@ ensures[C09,C10] maxID >= uint64(len(s.symbols)) ==> len(vcAsSST(result).symbols) == len(s.symbols)
@@ -1866,3 +1866,45 @@ package ion
 //@ atcall[C01,C02] writeRawChar [i int] 0 <= i && i < len(sym) && a0 == sym[i] && sym[i] >= 32 && sym[i] != 92 && sym[i] != 39
 //@ ensures[C01,C02] err == nil ==> vcCalls("writeEscapedChar")+vcCalls("writeRawChar") == len(sym)
 //@ safe[C06]
+
+// Inside a lob only whitespace is skipped, never comments: '/' is base64 data in a blob
+// and a clob allows no comments (Ion text spec, "Blobs", "Clobs") (C02).
+//@ func (*tokenizer).skipWhitespace
+//@ trusted thin: called by contract; assumed to keep the input attached (scanning loops are not under contract)
+//@ requires tkStream(t)
+//@ modifies *
+//@ ensures tkStream(t)
+//@ func (*tokenizer).skipLobWhitespace
+//@ trusted thin: called by contract; assumed to keep the input attached (scanning loops are not under contract)
+//@ requires tkStream(t)
+//@ modifies *
+//@ ensures tkStream(t)
+//@ func (*tokenizer).readClob
+//@ trusted thin: called by contract; assumed to keep the input attached (scanning loops are not under contract)
+//@ requires tkStream(t)
+//@ modifies *
+//@ ensures tkStream(t)
+//@ func (*tokenizer).readLongClob
+//@ trusted thin: called by contract; assumed to keep the input attached (scanning loops are not under contract)
+//@ requires tkStream(t)
+//@ modifies *
+//@ ensures tkStream(t)
+
+//@ func (*tokenizer).ReadBlob
+//@ requires tkStream(t)
+//@ modifies *
+//@ invariant loop0 true
+//@ atcall-if-any[C02] (*tokenizer).skipWhitespace false
+//@ atcall[C02] (*tokenizer).skipLobWhitespace true
+
+//@ func (*tokenizer).ReadShortClob
+//@ requires tkStream(t)
+//@ modifies *
+//@ atcall-if-any[C02] (*tokenizer).skipWhitespace false
+//@ atcall[C02] (*tokenizer).skipLobWhitespace true
+
+//@ func (*tokenizer).ReadLongClob
+//@ requires tkStream(t)
+//@ modifies *
+//@ atcall-if-any[C02] (*tokenizer).skipWhitespace false
+//@ atcall[C02] (*tokenizer).skipLobWhitespace true
